@@ -69,6 +69,32 @@ theorem Fuel.forIn_eq_of_opt {σ : Type} (body : Unit → σ → Option (ForInSt
       | done s' => simp only [] at h; rw [h]; rfl
       | yield s' => simp only [] at h; rw [h]; exact ih s'
 
+/-- The same for a body that may fail (`none` propagates). -/
+theorem Fuel.forIn_eq_of_optF {σ : Type} (body : Unit → σ → Option (ForInStep σ)) (F : Nat → σ → Option σ)
+    (h0 : ∀ s, F 0 s = some s)
+    (hstep : ∀ n s, match body () s with
+      | some (.done s') => F (n + 1) s = some s'
+      | some (.yield s') => F (n + 1) s = F n s'
+      | none => F (n + 1) s = none) :
+    ∀ n s, Fuel.forIn body n s = F n s := by
+  intro n
+  induction n with
+  | zero => intro s; simp only [Fuel.forIn, h0]; rfl
+  | succ n ih =>
+    intro s
+    have h := hstep n s
+    simp only [Fuel.forIn]
+    show (body () s >>= fun x => match x with
+      | .done s' => pure s'
+      | .yield s' => Fuel.forIn body n s') = _
+    cases hb : body () s with
+    | none => rw [hb] at h; simp only [] at h; rw [h]; rfl
+    | some x =>
+      rw [hb] at h
+      cases x with
+      | done s' => simp only [] at h; rw [h]; rfl
+      | yield s' => simp only [] at h; rw [h]; exact ih s'
+
 /-- A `for` over a list whose body never breaks is a left fold. -/
 theorem forIn_eq_foldl_of {γ σ : Type} (l : List γ) (init : σ) (body : γ → σ → Id (ForInStep σ)) (g : σ → γ → σ)
     (h : ∀ a b, body a b = pure (ForInStep.yield (g b a))) :
